@@ -1318,7 +1318,7 @@ class Engine:
             env[ins.dst] = _insert(v, idxs, e)
             return
         if op == 'landingpad':
-            env[ins.dst] = [NULL, z3.BitVecVal(0, 32)]
+            env[ins.dst] = [NULL, self.landing_selector(st, a)]
             return
         if op == 'resume':
             return ('raise',)
@@ -1414,9 +1414,60 @@ class Engine:
             return ('raise',)
         return ('split', r)
 
+    # ---------------------------------------------------------------- C++ exceptions: which catch clause a raise selects
+    EXC_BASES = {'_ZTISt16invalid_argument': '_ZTISt11logic_error', '_ZTISt12out_of_range': '_ZTISt11logic_error', '_ZTISt12length_error': '_ZTISt11logic_error',
+                 '_ZTISt12domain_error': '_ZTISt11logic_error', '_ZTISt11logic_error': '_ZTISt9exception', '_ZTISt13runtime_error': '_ZTISt9exception',
+                 '_ZTISt11range_error': '_ZTISt13runtime_error', '_ZTISt14overflow_error': '_ZTISt13runtime_error', '_ZTISt15underflow_error': '_ZTISt13runtime_error',
+                 '_ZTISt9bad_alloc': '_ZTISt9exception', '_ZTISt8bad_cast': '_ZTISt9exception'}
+
+    def typeid_of(self, sym):
+        ids = self.__dict__.setdefault('_typeids', {})
+        if sym not in ids:
+            ids[sym] = len(ids) + 1
+        return ids[sym]
+
+    def set_thrown(self, st, sym):
+        """remember the type of the exception in flight (None = unknown) in a pseudo-object, so that it survives state merging and returns"""
+        v = z3.BitVecVal(self.typeid_of(sym), 32) if sym is not None else z3.FreshConst(z3.BitVecSort(32), 'thrown')
+        st.mem.o['exc!type'] = RecObj({0: (v, 4)}, 4, False, 'exc')
+
+    def landing_selector(self, st, clauses):
+        """selector value of a landingpad: the typeid of the first catch clause the exception in flight matches (by exact type or a known
+        standard base class), 0 if none does (cleanup only); arbitrary when the thrown type is not known"""
+        o = st.mem.o.get('exc!type')
+        if o is None or not clauses:
+            return z3.BitVecVal(0, 32) if not clauses or all(c[0] == 'cleanup' for c in clauses) else z3.FreshConst(z3.BitVecSort(32), 'selector')
+        thrown = o.cells[0][0]
+        sel = z3.BitVecVal(0, 32)
+        known = self.__dict__.setdefault('_typeids', {})
+        for kind, sym in reversed([c for c in clauses if c[0] == 'catch']):
+            if sym is None:
+                sel = z3.BitVecVal(self.typeid_of('...'), 32)           # catch (...) takes everything
+                continue
+            tid = self.typeid_of(sym)
+            derived = [self.typeid_of(sym)]
+            for d in list(self.EXC_BASES):
+                b = d
+                while b in self.EXC_BASES:
+                    b = self.EXC_BASES[b]
+                    if b == sym:
+                        derived.append(self.typeid_of(d)); break
+            sel = z3.If(z3.Or([thrown == z3.BitVecVal(x, 32) for x in derived]), z3.BitVecVal(tid, 32), sel)
+        return z3.simplify(sel)
+
     def intrinsic(self, fr, ins, st, name, argv, tys):
         base = name.split('.')
         fn = base[1]
+        if name.startswith('llvm.eh.typeid.for'):
+            p = argv[0]
+            sym = None
+            if is_ptr(p) and not isinstance(p, GPtr) and p.obj is not None:
+                nm = p.obj[1] if isinstance(p.obj, tuple) else str(p.obj)
+                mm = re.search(r'(_ZTI[\w$.]+)', nm)
+                sym = mm.group(1) if mm else None
+            if sym is None:
+                raise Unsupported('llvm.eh.typeid.for of an unknown typeinfo')
+            return z3.BitVecVal(self.typeid_of(sym), 32)
         if fn in ('memcpy', 'memmove'):
             self.memcpy(fr, ins, st, argv[0], argv[1], argv[2]); return None
         if fn == 'memset':
